@@ -10,6 +10,8 @@ import (
 
 	jlib "github.com/jsightapi/jsight-schema-go-library"
 	jdoc "github.com/jsightapi/jsight-schema-go-library/formats/json"
+	"github.com/jsightapi/jsight-schema-go-library/notations/jschema"
+	"github.com/jsightapi/jsight-schema-go-library/rules/enum"
 
 	"verifharness/vh"
 )
@@ -162,7 +164,7 @@ func genNumber(r *rand.Rand) string {
 			sb.WriteByte("0123456789"[r.Intn(10)])
 		}
 	}
-	if r.Intn(4) == 0 {
+	if !genNoExp && r.Intn(4) == 0 {
 		sb.WriteByte("eE"[r.Intn(2)])
 		if r.Intn(2) == 0 {
 			sb.WriteByte("+-"[r.Intn(2)])
@@ -190,6 +192,21 @@ func genScalar(r *rand.Rand) string {
 
 // genBudget bounds the number of nodes of one generated text.
 var genBudget int
+
+// genNoExp: no exponents in numbers (the schema and enum scanners reject them by design).
+var genNoExp bool
+
+// dropNewLines removes the new-line events of the schema / enum scanners from a canonical event string.
+func dropNewLines(evs string) string {
+	parts := strings.Fields(evs)
+	out := parts[:0]
+	for _, p := range parts {
+		if !strings.HasPrefix(p, "new-line[") {
+			out = append(out, p)
+		}
+	}
+	return strings.Join(out, " ")
+}
 
 func genValue(r *rand.Rand, depth, maxW int) string {
 	genBudget--
@@ -445,6 +462,41 @@ func init() {
 				rep.AddDiff(vh.Diff{Component: "C06-prop", Input: txt, Impl: fmt.Sprintf("rebuilt %#v", got), Model: fmt.Sprintf("value %#v", want)})
 			}
 		}
+		// clone agreement (C06, second sentence): on plain JSON without exponents the schema scanner and — for arrays of
+		// scalars — the enum-rule scanner deliver the JSON scanner's event sequence, new-line events aside
+		genNoExp = true
+		for i := vh.Pick(4000, 80000); i > 0; i-- {
+			genBudget = 5 + r.Intn(60)
+			txt := genWS(r) + genValue(r, 1+r.Intn(6), 1+r.Intn(6)) + genWS(r)
+			b := []byte(txt)
+			want := jsonEvents(b, false)
+			got := dropNewLines(jschema.VerifSchemaEvents(b))
+			rep.Case("clone:"+txt, true)
+			rep.Stat("clone_schema")
+			if got != want {
+				rep.AddDiff(vh.Diff{Component: "C06-clone-schema", Input: txt, Impl: "schema scanner: " + got, Model: "JSON scanner: " + want})
+			}
+			if i%2 == 0 { // array of scalars for the enum scanner
+				n := r.Intn(5)
+				parts := make([]string, n)
+				for j := range parts {
+					parts[j] = genWS(r) + genScalar(r) + genWS(r)
+				}
+				at := "[" + strings.Join(parts, ",") + "]"
+				if n == 0 {
+					at = "[" + genWS(r) + "]"
+				}
+				ab := []byte(at)
+				wantA := jsonEvents(ab, false)
+				gotA := dropNewLines(enum.VerifEnumEvents(ab))
+				rep.Stat("clone_enum")
+				// the enum scanner reports duplicates as an error: skip texts with repeated items
+				if !strings.HasPrefix(gotA, "ERR 810") && gotA != wantA {
+					rep.AddDiff(vh.Diff{Component: "C06-clone-enum", Input: at, Impl: "enum scanner: " + gotA, Model: "JSON scanner: " + wantA})
+				}
+			}
+		}
+		genNoExp = false
 		rep.Compare(reqs, impl, inputs, 8)
 		rep.Finish()
 	})
